@@ -81,11 +81,30 @@ CHECKS = {
   "assumptions": ["same stubs as C01 for the scanner / scanProject instances"],
   "not_decided": ["attribution of schema-library errors to the directive at fault", "contents longer than the bounds"],
  },
+ "C03": {
+  "title": "Determinism",
+  "harnesses": [
+   doc("VerifH_Determinism", {"K": 4, "MENU": 1}, {"K": 5, "MENU": 1}, maporder=True, replay_repeat=30),
+   doc("VerifH_Determinism", {"K": 2, "MENU": 0}, {"K": 3, "MENU": 0}, maporder=True, replay_repeat=30),
+   {"pkg": "core", "fn": "VerifH_DeterminismUnusedParams", "quick": {}, "thorough": {}, "maporder": True, "replay_repeat": 30},
+  ],
+  "assumptions": DOC_ASSUME + ["map iteration order is a nondeterministic choice: at every Next of a map range the engine forks over all not yet visited entries, independently in the two runs of the self-composition",
+                               "a counterexample is replayed natively up to 30 times (the Go runtime picks the order at random)"],
+  "not_decided": DOC_NOT + ["byte-identical JSON (encoding/json not encoded)", "nondeterminism inside the schema library or the regex example generator", "cross-process / concurrent determinism",
+                            "map ranges over enum rules (compileUserTypeWithAllDependencies, prepareJSightSchema): they only matter when the schema library's AddRule fails for two rules at once"],
+ },
  "C04": {
   "title": "Catalog faithfulness",
   "harnesses": [STRUCT],
   "assumptions": DOC_ASSUME + ["reference model (refCatalogSig): reads info, servers, types, tags (declared first, then automatic per first path segment), and interactions with id / method / path / annotation / description / tags / request / responses off the template sequence using the C06 reference resolver for nesting"],
   "not_decided": DOC_NOT + ["documents with MACRO / PASTE (compared relationally by C07)"],
+ },
+ "C05": {
+  "title": "Surface syntax is immaterial",
+  "harnesses": [doc("VerifH_SurfaceSyntax", {"K": 2}, {"K": 3}),
+                {"pkg": "directive", "fn": "VerifH_QuoteNeutral", "quick": {"N": 4}, "thorough": {"N": 6}}],
+  "assumptions": DOC_ASSUME + ["one rewriting per run, at a symbolic position: comment line, block-comment line, blank line, indentation (spaces / tab), trailing blanks, trailing comment, CRLF or CR for every line end, quotes around a parameter, parentheses around the children of a directive"],
+  "not_decided": DOC_NOT + ["combinations of several rewritings", "rewritings inside schema bodies and multi-line free text", "byte-level relational scanner harness (two scanners in lock step on symbolic bytes)"],
  },
  "C06": {
   "title": "Context resolution",
